@@ -986,6 +986,9 @@ def tie_patterns(nc, nr):
     if nc == 2 and nr == 2:
         t += [(("same", ("a", "b")), ("share_r", ("c1", "c2"))), (("same_var", "a", "b"), ("same_var", "c1", "c2")),
               (("share_r", ("c1", "c2")), ("same", ("a", "c2r")))]
+        # two EXISTING groups of two merged through heads / followers / head + follower (every member of both groups must end up on one cell)
+        for x, y in (("a", "c1r"), ("b", "c2r"), ("a", "c2r"), ("b", "c1r"), ("c1r", "a")):
+            t += [(("same", ("a", "b")), ("same", ("c1r", "c2r")), ("same", (x, y)))]
     if nc == 2 and nr == 1:
         t += [(("share_r", ("c1", "c2")), ("same", ("a", "c1i")))]
     return t
